@@ -169,11 +169,11 @@ def draw_script(ch, cfg):
     plans = []
     if races:
         kinds = ["stream", "ping", "sleep", "pings", "streams", "change_cid", "wait_connected", "close",
-                 "error_close", "wait_closed"]
-        weights = [6, 3, 2, 1.5, 1.5, 1, 1.5, 2, 1, 0.7]
+                 "error_close", "wait_closed", "change_cids"]
+        weights = [6, 3, 2, 1.5, 1.5, 1, 1.5, 2, 1, 0.7, 1]
     else:
-        kinds = ["stream", "ping", "sleep", "pings", "streams", "change_cid", "wait_connected"]
-        weights = [6, 2, 1.5, 1, 1.5, 1, 0.7]
+        kinds = ["stream", "ping", "sleep", "pings", "streams", "change_cid", "wait_connected", "change_cids"]
+        weights = [6, 2, 1.5, 1, 1.5, 1, 0.7, 1]
     for i in range(cfg["n_clients"]):
         p = {"index": i}
         p["start"] = horizon * s.choose(8) / 16.0
@@ -205,6 +205,9 @@ def draw_script(ch, cfg):
                 op["streams"] = specs
             elif kind == "pings":
                 op["n"] = 2 + s.choose(7)
+            elif kind == "change_cids":  # the client rotates through several connection IDs in quick succession
+                op["n"] = 2 + s.choose(4)
+                op["gap"] = (0.0, 0.0005, 0.003)[s.choose(3)]
             elif kind == "sleep":
                 op["dt"] = horizon * (1 + s.choose(8)) / 16.0
             elif kind == "error_close":
@@ -253,6 +256,7 @@ def observed_protocol_class():
             self.v_h = harness
             self.v_role = role
             self.v_owner = owner
+            self.v_all_cids = set()
             self.v_n = harness.next_proto_n()
             self.v_cids = {quic.host_cid: True}
             self.v_terminated = False
@@ -269,6 +273,7 @@ def observed_protocol_class():
             name = type(event).__name__
             if isinstance(event, events.ConnectionIdIssued):
                 self.v_cids[event.connection_id] = True
+                self.v_all_cids.add(event.connection_id)
                 if self.v_retired:
                     h.probes["cid_replenished_after_retire"] += 1
             elif isinstance(event, events.ConnectionIdRetired):
@@ -492,6 +497,24 @@ class Harness:
                                     "t=%.6f: server connection #%d is alive and announced connection ID %s (not "
                                     "retired) but QuicServer._protocols does not route it (%d entries)" % (
                                         loop.time(), proto.v_n, cid.hex(), len(table)))
+
+        # the same clause from the client's side (independent of what the server believes was retired): the
+        # connection ID a live client currently addresses its packets to was issued by a live server connection
+        # and has not been retired by that client, so it must be routed
+        for st in self.clients:
+            cp = st.obs
+            if cp is None or cp.v_terminated or not cp.v_handshake:
+                continue
+            try:
+                cur = cp._quic._peer_cid.cid
+            except Exception:
+                continue
+            for proto in self.server_protos:
+                if not proto.v_terminated and cur in proto.v_all_cids and table.get(cur) is not proto:
+                    raise Violation("c19.routing-missing", "client-current-cid-unrouted",
+                                    "t=%.6f: client %d addresses its packets to connection ID %s, which live server "
+                                    "connection #%d issued and this client has not retired, but QuicServer._protocols "
+                                    "does not route it" % (loop.time(), st.index, cur.hex(), proto.v_n))
 
     # -- oracle 2a: the loop exception handler belongs to the simulator
     def judge_loop_exceptions(self):
@@ -740,6 +763,15 @@ class Harness:
                 self.loop.log("op", i, "change_cid")
                 self.probes["change_connection_id"] += 1
                 proto.change_connection_id()
+        elif kind == "change_cids":
+            for _ in range(op["n"]):
+                if proto.v_terminated or st.knows_closed or not proto.v_handshake:
+                    break
+                self.loop.log("op", i, "change_cid")
+                self.probes["change_connection_id"] += 1
+                proto.change_connection_id()
+                proto.transmit()
+                await asyncio.sleep(op["gap"])
         elif kind == "close":
             if not st.knows_closed:
                 await self.do_close(st, proto, None)
